@@ -394,6 +394,37 @@ def check_nan(prop: str, res: Result, repo: Repo, cas: List[ClassAnalysis]):
                 res.ok("R-NAN", {"site": f"{ca.ci.module.relpath}:{s.line}", "decaying series": sorted(dec)}, nontrivial=f"{ca.ci.name}:{s.line}" if dec else None)
 
 
+def _value_fact(c) -> bool:
+    """a comparison on stored readings / candle fields (as opposed to 'is there enough history yet')"""
+    if not isinstance(c, tuple) or not c:
+        return False
+    if c[0] == "not":
+        return _value_fact(c[1])
+    if c[0] in ("and", "or"):
+        return any(_value_fact(x) for x in c[1:])
+    if c[0] == "cmp":
+        return any(a[0] == "rd" for a in poly.all_atoms(c[2]))
+    return False
+
+
+def check_gap(prop: str, res: Result, repo: Repo, cas: List[ClassAnalysis]):
+    """R-GAP: a formula withholds its reading (returns None) only for lack of history -- conditions that never come back once they have
+    been left (missing previous reading, window not full, missing input).  A None that depends on the *values* seen is a gap after warm-up.
+    (Truthiness tests on values are R-TRUTH's subject and are not repeated here.)"""
+    for ca in cas:
+        fn = _fn_of(ca)
+        n = 0
+        for p in ca.paths:
+            if not isinstance(p.ret, NoneV):
+                continue
+            n += 1
+            vf = [c for c in p.state.facts if _value_fact(c)]
+            if vf:
+                res.fail("R-GAP", finding(prop, "R-GAP", fn, p.node or fn.node, f"the reading is None under the value condition [{' & '.join(show_cond(c) for c in vf)[:160]}]: once the series has started, such a candle is a gap", construct=f"None under {' & '.join(show_cond(c) for c in vf)}"[:190]))
+            else:
+                res.ok("R-GAP", {"class": ca.ci.name, "None only under": " & ".join(show_cond(c) for c in p.state.facts)[:160] or "always"}, nontrivial=f"{ca.ci.name}:{n}")
+
+
 def check_sqrt(prop: str, res: Result, repo: Repo, cas: List[ClassAnalysis], signs: Signs):
     for ca1 in cas:
         ca = signs.analyse(ca1.ci)
